@@ -70,6 +70,9 @@ func (c *ctx) genJoinCase(i int) *joinCase {
 	}
 	if c.rnd.Intn(12) == 0 { // an RxDelay the 4-bit field cannot carry: the request cannot be answered with Success
 		jc.rxDelay = c.pick(16, 255, 256, 257, 271, 65539, -1, -255)
+		if c.rnd.Intn(2) == 0 { // ... in a request that cannot be authenticated either: MICFailed comes first
+			jc.micok = false
+		}
 	}
 	copy(jc.devEUI[:], c.bytesN(8))
 	jc.devEUI[0] = byte(i) // distinct per case within a batch
